@@ -102,3 +102,125 @@ class RoundTrip:
         if ty is not None and r[2] != ty:
             return ("bad", "%s: %s reads back with type %s instead of %s" % (what, self.el.show(node), self.el.describe(r[2]) if r[2] is not None else None, self.el.describe(ty)))
         return None
+
+
+class DeclRoundTrip:
+    """Declarations: the exporter's generate_variable_definition / generate_global_variable / generate_function_param are
+    walked on model declarations (every storage class x precise x const; every input modifier x interpolation modifier);
+    the ast::Type that comes out is handed to the typer's parse_localtype / parse_globaltype / parse_input_modifier /
+    parse_interpolation_modifier, which must give back the storage class, precise flag, input and interpolation modifier
+    the declaration had. Type names are carried through opaquely."""
+
+    def __init__(self, facts, crate="rssl_hlsl"):
+        self.f, self.crate = facts, crate
+        g = lambda n, c=crate, **kw: facts.fn(n, c, **kw)
+        self.gen_local = g("generate_variable_definition")
+        self.gen_global = g("generate_global_variable")
+        self.gen_param = g("generate_function_param")
+        self.parse_local = facts.fn("parse_localtype", "rssl_typer")
+        self.parse_global = facts.fn("parse_globaltype", "rssl_typer")
+        self.parse_input = facts.fn("parse_input_modifier", "rssl_typer")
+        self.parse_interp = facts.fn("parse_interpolation_modifier", "rssl_typer")
+
+    @staticmethod
+    def opt(v):
+        return I.Enum("Option", "None") if v is None else I.Enum("Option", "Some", {"0": v})
+
+    @staticmethod
+    def loc(v):
+        return I.Enum("Located", None, {"node": v, "location": I.Opaque("loc")})
+
+    def _ext(self, const, name="v"):
+        ok = lambda v: I.Enum("Result", "Ok", {"0": v})
+
+        def gtd(a):
+            suppress = a[2] if len(a) > 2 else False
+            mods = [self.loc(I.Enum("TypeModifier", "Const"))] if const and suppress is not True else []
+            ty = I.Enum("Type", None, {"layout": I.Opaque("layout"), "modifiers": I.Enum("TypeModifierSet", None, {"modifiers": mods}), "location": I.Opaque("loc"), "carried": 3})
+            return ok((ty, I.Enum("Declarator", "Identifier", {"0": name, "1": []})))
+        return {"::get_variable_name": lambda a: ok(name), "::get_global_name": lambda a: ok(name), "generate_type_and_declarator": gtd, "generate_initializer": lambda a: ok(self.opt(None)),
+                "generate_register_annotation": lambda a: ok(self.opt(None)), "append_vk_binding_annotation": lambda a: ok(()), "generate_expression": lambda a: ok(I.Opaque("expr")),
+                "parse_type_for_usage": lambda a: ok(I.Enum("TypeId", None, {"0": 3})), "generate_semantic": lambda a: ok(I.Opaque("semantic")),
+                "TypeRegistry::is_void": lambda a: False, "TypeRegistry::make_const": lambda a: a[1],
+                # the model has two type ids: 3 (plain) and 7 (the same type, const)
+                "TypeRegistry::remove_modifier": lambda a: I.Enum("TypeId", None, {"0": 3}),
+                "TypeRegistry::extract_modifier": lambda a: (I.Enum("TypeId", None, {"0": 3}), I.Enum("TypeModifier", None, {
+                    "is_const": a[1].fields.get("0") == 7, "volatile": False, "row_major": False, "column_major": False, "unorm": False, "snorm": False}))}
+
+    def _mods(self, ty):
+        return [m.fields["node"].variant for m in ty.fields["modifiers"].fields["modifiers"]]
+
+    def _run(self, fn, args, ext, depth=6):
+        ip = I.Interp(self.f, max_depth=depth, extern=ext)
+        ip.max_loop = 64
+        try:
+            r = ip.apply(fn, args)
+        except I.Unknown as e:
+            return ("aborts" if "panicking" in str(e) else "unreadable", str(e)[:120])
+        if isinstance(r, I.Enum) and r.variant == "Err":
+            return ("Err", getattr(r.fields.get("0"), "variant", "?"))
+        if isinstance(r, I.Enum) and r.variant == "Ok":
+            return ("Ok", r.fields["0"])
+        return ("unreadable", repr(r)[:80])
+
+    def local(self, storage, precise, const):
+        """-> ('Ok', exported modifier names, re-read (storage, precise) or None) | ('Err'|'aborts'|'unreadable', why)"""
+        vd = I.Enum("LocalVariable", None, {"name": self.loc("v"), "type_id": I.Enum("TypeId", None, {"0": 7 if const else 3}), "storage_class": I.Enum("LocalStorage", storage), "precise": precise})
+        ext = self._ext(const)
+        ext["get_local_variable"] = lambda a: vd
+        ctx = I.Enum("GenerateContext", None, {"module": I.Enum("Module", None, {"variable_registry": I.Opaque("variables"), "type_registry": I.Opaque("types")})})
+        r = self._run(self.gen_local, [I.Enum("VarDef", None, {"id": I.Enum("VariableId", None, {"0": 0}), "init": self.opt(None)}), ctx], ext)
+        if r[0] != "Ok":
+            return r
+        ty = r[1].fields["local_type"]
+        back = None
+        if self.parse_local is not None:
+            b = self._run(self.parse_local, [ty, I.Opaque("typer context")], ext)
+            if b[0] == "Ok" and isinstance(b[1], tuple) and len(b[1]) == 3:
+                back = (b[1][1].variant, b[1][2])
+            else:
+                back = b
+        return ("Ok", self._mods(ty), back)
+
+    def global_(self, storage, const):
+        g = I.Enum("GlobalVariable", None, {"name": self.loc("g"), "type_id": I.Enum("TypeId", None, {"0": 7 if const else 3}), "storage_class": I.Enum("GlobalStorage", storage),
+                                            "api_slot": self.opt(None), "lang_slot": I.Opaque("slot"), "init": self.opt(None), "is_bindless": False, "static_sampler": self.opt(None), "is_intrinsic": False})
+        mod = I.Enum("Module", None, {"global_registry": [g], "flags": I.Enum("ModuleFlags", None, {"requires_vk_binding": False, "requires_buffer_address": False, "assigned_api_slots": True})})
+        ext = self._ext(const, "g")
+        r = self._run(self.gen_global, [I.Enum("GlobalId", None, {"0": 0}), I.Enum("GenerateContext", None, {"module": mod, "name_map": I.Opaque("names")})], ext)
+        if r[0] != "Ok":
+            return r
+        ty = r[1].fields["global_type"]
+        back = None
+        if self.parse_global is not None:
+            b = self._run(self.parse_global, [ty, I.Opaque("typer context")], ext)
+            if b[0] == "Ok" and isinstance(b[1], tuple) and len(b[1]) == 2:
+                back = b[1][1].variant
+            else:
+                back = b
+        return ("Ok", self._mods(ty), back)
+
+    def param(self, input_modifier, interpolation, precise):
+        p = I.Enum("FunctionParam", None, {
+            "id": I.Enum("VariableId", None, {"0": 0}), "param_type": I.Enum("ParamType", None, {"type_id": I.Enum("TypeId", None, {"0": 3}), "input_modifier": I.Enum("InputModifier", input_modifier)}),
+            "interpolation_modifier": self.opt(I.Enum("InterpolationModifier", interpolation) if interpolation else None), "precise": precise, "semantic": self.opt(None), "default_expr": self.opt(None)})
+        ext = self._ext(False, "p")
+        ctx = I.Enum("GenerateContext", None, {"module": I.Opaque("module"), "per_primitive_semantics": I.Opaque("semantics")})
+        r = self._run(self.gen_param, [p, ctx, False], ext)
+        if r[0] != "Ok":
+            return r
+        ty = r[1].fields["param_type"]
+        mods = ty.fields["modifiers"]
+        back = {}
+        for k, fn in (("input", self.parse_input), ("interpolation", self.parse_interp)):
+            if fn is None:
+                back[k] = ("unreadable", "typer function not found")
+                continue
+            b = self._run(fn, [mods], ext)
+            if b[0] == "Ok" and isinstance(b[1], I.Enum) and b[1].adt == "Option":
+                v = b[1].fields.get("0")
+                v = v[0] if isinstance(v, tuple) else v
+                back[k] = v.variant if isinstance(v, I.Enum) else None
+            else:
+                back[k] = b
+        return ("Ok", self._mods(ty), back)
